@@ -14,6 +14,7 @@ import (
 
 	"github.com/go-text/typesetting/font"
 	ot "github.com/go-text/typesetting/font/opentype"
+	"github.com/go-text/typesetting/font/opentype/tables"
 )
 
 func glyfMain(args []string) error {
@@ -102,6 +103,25 @@ func glyfMain(args []string) error {
 						break
 					}
 					prev = end
+				}
+			}
+			// a variable font is first used at a non-default instance, then brought back to its default
+			// coordinates: what is recorded below must be the default glyphs again
+			if fv := raw("fvar"); fv != nil && raw("gvar") != nil {
+				if fvar, _, err := tables.ParseFvar(fv); err == nil && len(fvar.FvarRecords.Axis) > 0 {
+					var vs []font.Variation
+					for _, ax := range fvar.FvarRecords.Axis {
+						vs = append(vs, font.Variation{Tag: ax.Tag, Value: float32(ax.Maximum)})
+					}
+					func() {
+						defer func() { recover() }()
+						face.SetVariations(vs)
+						for _, g := range gids {
+							face.GlyphExtents(font.GID(g))
+							face.HorizontalAdvance(font.GID(g))
+						}
+						face.SetVariations(nil)
+					}()
 				}
 			}
 			for _, g := range gids {
